@@ -296,7 +296,8 @@ type mutexState struct {
 	locked  bool
 	owner   int
 	readers int
-	vc      []int
+	vc      []int // released by Unlock (acquired by Lock and RLock)
+	vcR     []int // joined by RUnlock (acquired by Lock only: readers do not order each other)
 }
 
 type condState struct {
@@ -335,6 +336,7 @@ func (th *Thread) mutexLock(p *Value) {
 	m.owner = th.id
 	if e.race != nil {
 		e.race.acquire(th, &m.vc)
+		e.race.acquire(th, &m.vcR)
 	}
 }
 
@@ -370,7 +372,7 @@ func (th *Thread) mutexRUnlock(p *Value) {
 		panic(targetPanic{Iface{types.Typ[types.String], Str{s: "fatal error: sync: RUnlock of unlocked RWMutex"}}})
 	}
 	if e.race != nil {
-		e.race.releaseJoin(th, &m.vc)
+		e.race.releaseJoin(th, &m.vcR)
 	}
 	m.readers--
 }
